@@ -417,40 +417,98 @@ def pool_calls(facts):
     return out
 
 
+def _crossings(ev, events, out, in_loop=False):
+    """Pool-crossing operations met on one way: (kind, site, pool term or None, inside a loop?)."""
+    for x in events:
+        if x[0] == "once":
+            out.append((x[2], x[1], x[3], in_loop))
+        elif x[0] == "loop":
+            L = x[1]
+            if L.kind == "model:par_for_each":
+                out.append(("par_for_each", L.site, None, in_loop))
+            for it in L.iters:
+                _crossings(ev, it.path.events, out, True)
+        elif x[0] == "call":
+            c = x[2]
+            if getattr(c, "crate", None) in ("rayon", "rayon_core") or (getattr(c, "trait", None) or "").startswith("rayon::"):
+                if c.name in ("par_iter", "par_iter_mut", "into_par_iter"):
+                    continue    # the parallel iterator itself: counted where it is consumed
+                out.append((("ThreadPoolBuilder::" + c.name) if "ThreadPoolBuilder" in c.path else c.name, x[1], None, in_loop))
+    return out
+
+
+def pool_entries(facts, parallel):
+    """The audited places where work crosses to the pool: (body, {kind: times per way})."""
+    out = []
+    if parallel:
+        out.append((facts.one(A.SD + "::dispatch_par"), {"install": 1}))
+        out.append((facts.one(A.STAGE + "::execute"), {"par_for_each": 1}))
+        out.append((facts.one(A.AD + "::dispatch"), {"spawn": 1}))
+        out.append((facts.one(name="run", trait=A.T_RUNWITHPOOL, self_head=A.PAR), {"join": 1, "current_thread_index": 1}))
+        out.append((facts.one(A.DB + "::create_thread_pool"), {"ThreadPoolBuilder::new": 1, "ThreadPoolBuilder::build": 1}))
+    return out
+
+
 def pool_inventory(ctx, report, rule, facts, config, crossing_only=False):
-    """The only places where work crosses to the pool are the audited ones.  crossing_only: ignore
-    pool *configuration* calls (ThreadPoolBuilder), which are C11's business."""
-    expected = {
-        (A.SD + "::dispatch_par", "install"): 1,
-        (A.STAGE + "::execute", "par_iter_mut"): 1,
-        (A.STAGE + "::execute", "for_each"): 1,
-        (A.AD + "::dispatch", "spawn"): 1,
-        ("<" + A.PAR + "<H, T> as " + A.T_RUNWITHPOOL + ">::run", "join"): 2,
-        ("<" + A.PAR + "<H, T> as " + A.T_RUNWITHPOOL + ">::run", "current_thread_index"): 1,
-        (A.DB + "::create_thread_pool", "new"): 1,
-        (A.DB + "::create_thread_pool", "build"): 1,
-    }
-    got = {}
-    sites = {}
-    for b, bb, c in pool_calls(facts):
+    """Work crosses to the pool only in the audited entry points: every rayon call lies in one of them or in a helper
+    that only they reach, and on every way through an entry point the crossing happens exactly as often as audited.
+    crossing_only: ignore pool *configuration* calls (ThreadPoolBuilder), which are C11's business."""
+    from . import semq as Q
+    parallel = ctx.parallel(config)
+    entries = pool_entries(facts, parallel)
+    ekeys = dict((b.key, b) for b, _ in entries)
+    callers = facts.callers()
+
+    def root(b):
+        return facts.bodies.get(b.root_key, b) if b.is_closure and b.root_key else b
+
+    def owners(b, seen):
+        b = root(b)
+        if b.key in ekeys:
+            return set([b.key])
+        if b.key in seen:
+            return set()
+        seen = seen | set([b.key])
+        cs = callers.get(b.key, [])
+        if not cs:
+            return set([None])
+        out = set()
+        for cb, bb in cs:
+            out |= owners(cb, seen)
+        return out
+
+    sites = pool_calls(facts)
+    n = 0
+    for b, bb, c in sites:
         if crossing_only and "ThreadPoolBuilder" in c.path:
             continue
-        k = (b.qname, c.name)
-        got[k] = got.get(k, 0) + 1
-        sites.setdefault(k, b.loc(bb))
-    if crossing_only:
-        expected = dict((k, v) for k, v in expected.items() if not k[0].endswith("create_thread_pool"))
-    for k in sorted(set(expected) | set(got)):
-        e = expected.get(k, 0)
-        g = got.get(k, 0)
-        if not ctx.parallel(config) and g == 0:
+        n += 1
+        ow = owners(b, frozenset())
+        ok = bool(ow) and None not in ow
+        if not ok:
+            report.ob(rule, "rayon/%s/%s" % (root(b).qname, c.name), False,
+                      "rayon `%s` is called in %s, which is reachable without going through an audited pool entry point" % (c.name, b.qname), site=b.loc(bb), config=config)
+    report.ob(rule, "rayon/owned", True, "%d rayon call site(s) looked at" % n, config=config)
+    if not parallel:
+        report.ob(rule, "rayon/none-without-parallel", not sites, "no rayon call without the `parallel` feature", config=config)
+        return
+    report.floor(rule, "rayon call sites", n, 7 if crossing_only else 9, config=config)
+    for b, want in entries:
+        if crossing_only and b.name == "create_thread_pool":
             continue
-        report.ob(rule, "rayon/%s/%s" % k, e == g,
-                  "%d call(s) of rayon `%s` in %s (audited: %d)" % (g, k[1], k[0], e), site=sites.get(k), config=config)
-    if ctx.parallel(config):
-        report.floor(rule, "rayon call sites", sum(got.values()), 7 if crossing_only else 9, config=config)
-    else:
-        report.ob(rule, "rayon/none-without-parallel", not got, "no rayon call without the `parallel` feature", config=config)
+        report.touched(b, config)
+        ev, ends = Q.sem(ctx, facts, b, opaque=[k for k in ekeys if k != b.key])
+        pr = []
+        rets = Q.returns(ends)
+        if not rets:
+            pr.append("no way through returns")
+        for e in rets:
+            got = {}
+            for kind, site, pool, in_loop in _crossings(ev, e.path.events, []):
+                got[kind] = got.get(kind, 0) + (2 if in_loop else 1)
+            if got != want:
+                pr.append("a way through crosses to the pool as %s (audited: %s)" % (sorted(got.items()), sorted(want.items())))
+        report.ob(rule, "rayon/%s" % b.qname, not pr, "every way through: %s" % sorted(want.items()) if not pr else "; ".join(sorted(set(pr))), site=b.loc(), config=config)
 
 
 # ------------------------------------------------------------------ BUILD wiring
